@@ -145,7 +145,7 @@ def gen_system(rng, names):
     if r < 0.28:
         return rng.choice(['fixed', 'fixed 1', 'fixed 0', 'fixed -3', 'fixed 5', 'fixed 2.5'])
     if r < 0.31:
-        return rng.choice(['cyclic x', 'bogus', 'extends', 'extends a b'])  # an empty value raises IndexError in the validator (reported)
+        return rng.choice(['cyclic x', 'bogus', 'extends', 'extends a b', ''])  # (an empty value is rejected by preprocess_descriptors since d71ddd0)
     return rng.choice(['cyclic', 'numeric', 'alphabetic', 'symbolic', 'additive'])
 
 
@@ -153,7 +153,7 @@ def gen_range(rng):
     def one():
         r = rng.random()
         if r < 0.12:
-            return 'auto'
+            return rng.choice(['auto', 'auto', 'Auto'])
         lo = rng.choice(['infinite', '-5', '0', '1', '2', '3', '-50'])
         hi = rng.choice(['infinite', '-1', '0', '1', '4', '9', '30', '400'])
         return f'{lo} {hi}'
